@@ -164,6 +164,9 @@ def check(run, model, tier):
     run.rule('KIND.wiring', 'registry written for kind k == registry given to the k thread, with the k fabric queue')
     run.rule('DELIVER.exact', 'delivery loop: for q in registry[event.signal_name]: q.add(item.event) once; publish: one put per kind')
     run.rule('ALIAS.thread-args', 'attributes handed to threads are not rebound outside __init__')
+    run.rule('TRUTH.queue', 'a queue handed to the fabric is never tested for truth (an empty queue is falsy: whether it is registered would depend on pending events)')
+    from sa import ident
+    ident.check_queue_truth(run, model, 'TRUTH.queue', classes=('ActiveFabricSource',), floor=2)
     w = fabric.wiring(model)
     fab = w.fab
     h = w.helper
